@@ -1,5 +1,7 @@
 package chk
 
+import "fmt"
+
 func init() { Registry["C20"] = checkC20 }
 
 // C20 — independent objects usable from concurrent goroutines.
@@ -9,10 +11,17 @@ func checkC20(c *Ctx, r *Report) {
 	r.Explanation = "R2 (who-may-write package-level state): every SSA store / map update / copy / delete whose address is rooted at a package-level variable " +
 		"(directly, through a pointer/slice/map header loaded from it, or through a parameter that receives such an address) must be in an init function or in the registry mutators " +
 		"mp4.SetBoxDecoder / mp4.RemoveBoxDecoder; no package-level variable of a sync/atomic type. Decides absence of hidden shared mutable state, a necessary condition of C20; " +
-		"R4: no library function calls a storage-sharing method ((*bytes.Buffer).Next/Bytes, (*bufio.Reader).Peek) on the io.Reader it was given, so decoded structures do not alias the caller's input; does not decide races inside the standard library or schedules."
+		"R3: exported Decode*/Parse* functions store only into memory they allocated, never through a pointer parameter; O-COPY: a byte-slice field that is grown with append is never assigned a caller's slice directly (except MdatBox.SetData, whose documented contract is to adopt it); R4: no library function calls a storage-sharing method ((*bytes.Buffer).Next/Bytes, (*bufio.Reader).Peek) on the io.Reader it was given, so decoded structures do not alias the caller's input; does not decide races inside the standard library or schedules."
 	r.Assume("call graph = VTA over CHA (x/tools v0.29.0); reflection and unsafe writes are not modelled (unsafe is used once, read-only, in avc/annexb.go)")
 	r.Assume("address escape through interface method calls into non-repository code is not followed")
 	ruleR2(c, r, map[string]bool{"mp4.SetBoxDecoder": true, "mp4.RemoveBoxDecoder": true})
 	ruleNoReaderAliasing(c, r)
+	ruleTencReadOnly(c, r)
+	if n := ruleNoAdoptThenAppend(c, r, "O-COPY"); n < 4 {
+		r.Undecided("O-COPY", "scope", "", fmt.Sprintf("only %d appended byte-slice fields found", n))
+	}
+	if n := rulePureInputs(c, r, map[string]bool{"avc": true, "hevc": true, "sei": true, "aac": true, "av1": true, "mp4": true}); n < 250 {
+		r.Undecided("R3", "scope", "", fmt.Sprintf("only %d decoders found", n))
+	}
 	requireFixture(r, "R4", "readBodyAliasing", func(fc *Ctx, s *Report) { ruleNoReaderAliasing(fc, s) })
 }
